@@ -268,6 +268,14 @@ def run(ctx):
 
     ctx.section(c10.state_slice, ctx, "C06.state", ["cdd.json_schema.emit.json_schema", "cdd.json_schema.parse.json_schema"], 4)
 
+    def _sec_inputmut():
+        # "required exactly when not Optional" must also hold for the second emission of one object: the emitter
+        # must not turn the caller's parameter mappings into JSON-schema properties
+        f_ = index.func("cdd.json_schema.emit.json_schema")
+        c10.inputmut_rule(ctx, "C06.inputmut", [(f_, f_.params[0])], "a second emission of the same object lists other properties as required")
+
+    ctx.section(_sec_inputmut)
+
 
 
 def _pattern(ctx, index, p2j=None, j2p=None):
